@@ -55,6 +55,7 @@ def config_case(draw, for_c12=False):
         case["path_mode"] = draw(st.sampled_from(["explicit", "explicit", "auto"]))
         case["preexisting"] = draw(st.sampled_from(["fresh", "fresh", "larger", "smaller"]))
         case["fault_kind"] = draw(st.sampled_from(["likelihood", "likelihood", "prior"]))
+        case["fit_in_context"] = draw(st.booleans())
     return case
 
 
@@ -143,6 +144,13 @@ class CkptProblem(rc.Problem):
             if auto:
                 kw = self.sample_kwargs(None, resume_from, None)
                 with self.aspire.auto_checkpoint(path, every=self.case["ckpt_every"]):
+                    if self.case.get("fit_in_context"):
+                        # the documented workflow: fit and sample inside one auto_checkpoint context
+                        from aspire.samples import Samples
+
+                        g = np.random.default_rng(self.case["seed"] + 17)
+                        data = self.lo + (self.hi - self.lo) * g.uniform(0.2, 0.8, size=(32, self.case["d"]))
+                        self.aspire.fit(Samples(data, xp=self.xp, parameters=self.params, dtype=self.dt))
                     out = self.aspire.sample_posterior(**kw)
             else:
                 kw = self.sample_kwargs(None, resume_from, path)
